@@ -633,11 +633,11 @@ func genCase(t *rapid.T, transports []string) Case {
 		hk[kv.Key] = true
 	}
 	for _, kv := range genKVs(t, "t") {
-		if !trailersOnly || c.Transport == "grpcweb" || !hk[kv.Key] || reserved[kv.Key] {
+		if !trailersOnly || c.Transport == "grpcweb" || c.Transport == "http" || !hk[kv.Key] || reserved[kv.Key] {
 			c.Trailer = append(c.Trailer, kv)
 		}
 	}
-	if (!trailersOnly || c.Transport == "grpcweb") && len(c.Header) > 0 && rapid.IntRange(0, 2).Draw(t, "reuseKey") == 0 {
+	if (!trailersOnly || c.Transport == "grpcweb" || c.Transport == "http") && len(c.Header) > 0 && rapid.IntRange(0, 2).Draw(t, "reuseKey") == 0 {
 		src := c.Header[rapid.IntRange(0, len(c.Header)-1).Draw(t, "reuseIdx")]
 		if !reserved[src.Key] {
 			dup := false
